@@ -197,6 +197,17 @@ class SigDirector:
                         cons.send("pull")
                         await anyio.wait_all_tasks_blocked()
                         res = [f"blocked {op['s']}"] if cons.pulling else []
+                elif k == "finish":
+                    # the consumer finalises its iterator (aclose()) but stays inside the stream_events() block: from
+                    # now on it is a subscriber that never takes anything (nothing happens if it is waiting right now)
+                    cons = self.consumers.get(op["s"])
+                    if cons is None or not cons.open:
+                        res = ["badOp"]
+                    else:
+                        if not cons.pulling:
+                            cons.send("finish")
+                            await anyio.wait_all_tasks_blocked()
+                        res = ["ok"]
                 elif k == "leave":
                     cons = self.consumers.get(op["s"])
                     if cons is None or not cons.open:
@@ -324,6 +335,9 @@ class Consumer:
                     cmd = await self.rx.receive()
                     if cmd == "leave":
                         break
+                    if cmd == "finish":
+                        await stream.aclose()
+                        continue
                     self.pulling = True
                     with anyio.CancelScope() as self.scope:
                         ev = await stream.__anext__()
